@@ -62,7 +62,43 @@ def check_params(ctx, spec, root, tag, model_out):
                          {'task': n, 'parameters': bad, 'got': {k: got.get(k) for k in bad}, 'expected': {k: exp[k] for k in bad}})
                 break
         ctx.count('parameter-tables', len(ref['ok']))
+    object_uses_probe(ctx, spec, b, impl, root, tag)
     b.cleanup_module()
+
+
+def object_uses_probe(ctx, spec, b, impl, root, tag):
+    """`uses` entries may be Config objects instead of path strings: the chain must be the one the file-based tree gives
+    (same tasks, same parameter values, same keys)"""
+    import json
+    from taskchain import Config
+    main = spec['main']
+    fdata = spec['files'].get(main)
+    if 'ok' not in impl or not isinstance(fdata, dict) or 'configs' in fdata or 'uses' not in fdata or not main.endswith('.json'):
+        return
+    data_dir = root / (tag + '_objdata')
+    ctxv = pl.subst_paths(spec.get('context'), b) if spec.get('context') is not None else None
+    try:
+        raw = json.loads(b.path(main).read_text())
+        objs = []
+        for u in builder.los(raw['uses']):
+            path, _, ns = u.partition(' as ')
+            objs.append(Config(data_dir, path, namespace=ns or None))
+        raw['uses'] = objs
+        top = Config(data_dir, name=main[:-5], data=raw, context=ctxv, namespace=spec.get('namespace'))
+        chain = top.chain()
+    except Exception as e:  # noqa
+        ctx.case({'probe': 'object-uses', 'module': spec['module']}); ctx.count('object-uses:error')
+        ctx.fail('a config tree given with Config objects in `uses` cannot be built although the same tree given by paths can', {'spec': spec},
+                 {'error': f'{type(e).__name__}: {e}'[:300]})
+        return
+    ctx.case({'probe': 'object-uses', 'module': spec['module']}, nontrivial=True); ctx.count('object-uses')
+    ref = impl['chain']
+    a = {n: ({p.name: pl.to_model(p._value) for p in t.parameters.values()}, t.name_for_persistence) for n, t in chain.tasks.items()}
+    r = {n: ({p.name: pl.to_model(p._value) for p in t.parameters.values()}, t.name_for_persistence) for n, t in ref.tasks.items()}
+    if a != r:
+        bad = sorted(set(a) ^ set(r)) or [n for n in a if a[n] != r[n]]
+        ctx.fail('a config tree given with Config objects in `uses` yields other tasks / parameter values / keys than the same tree given by paths',
+                 {'spec': spec}, {'tasks': bad[:4]})
 
 
 def aliasing_probe(ctx, root):
